@@ -128,11 +128,11 @@ Definition med := editor memdict N.
 Definition m_init (d : memdict) (ab : list (N * list N)) (ss : symbol_sel) (t0 : N) : med :=
   init_editor d EMPTY_PATTERN ab ss t0.
 
-Definition m_key (conv : conv_fn) (e : med) (ev : keyevent) := process_keyevent md_ops std_ops conv e ev.
-Definition m_select (conv : conv_fn) (e : med) (n : nat) := ed_select md_ops std_ops conv e n.
+Definition m_key (conv : conv_fn memdict) (e : med) (ev : keyevent) := process_keyevent md_ops std_ops conv e ev.
+Definition m_select (conv : conv_fn memdict) (e : med) (n : nat) := ed_select md_ops std_ops conv e n.
 Definition m_cancel (e : med) := ed_cancel_selecting e.
 Definition m_start_selecting (e : med) := ed_start_selecting md_ops std_ops e.
-Definition m_commit (conv : conv_fn) (e : med) := ed_commit md_ops conv e.
+Definition m_commit (conv : conv_fn memdict) (e : med) := ed_commit md_ops conv e.
 Definition m_clear (e : med) := ed_clear std_ops e.
 Definition m_ack (e : med) := ed_ack e.
 Definition m_set_options (e : med) (o : options) := ed_set_options_c md_ops std_ops e o.
@@ -167,4 +167,17 @@ Definition m_engine_alts (e : med) (c : composition) : outcome (list (list inter
   match engine (sh e) with
   | EngSimple => Ok ([simple_convert (m_lookup1 d) spell c], false)
   | k => chewing_convert_x sort_by_len spell (fun syms => md_lookup d (engine_fuzzy k) (syl_prefix syms)) c
+  end.
+
+(* the conversion of the editor instance with the modelled engines in place of the oracle: SimpleEngine, or the
+   n-th alternative of the Chewing / Fuzzy engine model over the current dictionary.  The engine model is
+   stated for buffers of up to 4000 symbols (beyond that the i32 arithmetic of the score overflows in debug
+   builds); longer buffers - which the C API cannot build, its limit is 39 - fall back to one interval per
+   symbol and are outside the model. *)
+Definition m_conv : conv_fn memdict := fun d k c n =>
+  match k with
+  | EngSimple => simple_convert (m_lookup1 d) spell c
+  | _ => if Nat.leb (clen c) 4000
+         then engine_alt sort_by_len spell (fun syms => md_lookup d (engine_fuzzy k) (syl_prefix syms)) c n
+         else simple_convert (m_lookup1 d) spell c
   end.
